@@ -105,6 +105,14 @@ def body_line(ctx, case):
     ctx.check(lc.shape == (len(labels),) and np.all(np.isfinite(lc)) and np.all(lc >= 0) and np.all(lc <= 1 + 1e-9),
               "char_confidence_out_of_range", lambda: "confidences %r; " % (lc,) + desc())
     ctx.check(0 <= nums["page_conf"] <= 1 + 1e-9, "line_confidence_out_of_range", lambda: "%r; " % nums["page_conf"] + desc())
+    if case["seed"] % 4 == 0:
+        # the degenerate line: a recogniser that returned no output frames at all (empty transcription)
+        from pero_ocr.core.layout import TextLine
+        from pero_ocr.document_ocr.page_parser import PageParser
+        empty = TextLine(id="e", logits=sparse.csc_matrix((0, C), dtype=np.float32), characters=list(line.characters), logit_coords=[0, 0], transcription="")
+        v = float(ctx.must("compute_line_confidence_raises", PageParser.compute_line_confidence, empty))
+        ctx.check(0.0 <= v <= 1.0 + 1e-9, "line_confidence_out_of_range", lambda: "line without output frames: %r" % v)
+        ctx.event("line_without_frames")
     le = nums["letter"]
     ctx.check(le.shape == (len(labels),) and np.all(le <= 1e-9) and np.all(np.exp(le) >= 0), "letter_confidence_not_log_prob",
               lambda: "%r; " % (le,) + desc())
@@ -177,7 +185,7 @@ def body_alto(ctx, case):
     labels = case["labels"]
     desc = lambda: "case=%r" % (case,)
 
-    def export(shift, prior=None):
+    def export(shift, prior=None, quality=False):
         line, full, dense = make_line(case, shift=shift)
         line.transcription_confidence = prior
         T = dense.shape[0]
@@ -193,6 +201,10 @@ def body_alto(ctx, case):
         pl.regions = [reg]
         lp = line.get_full_logprobs()[line.logit_coords[0]:line.logit_coords[1]]
         al = [int(x) for x in align_text(-lp, np.asarray(labels), lp.shape[1] - 1)]
+        if quality:
+            # PageLayout.get_quality(): the sibling entry point that estimates the same per-character confidences
+            q = ctx.must("get_quality_raises", pl.get_quality)
+            return q, line.transcription_confidence, al, T
         xml = ctx.must("alto_export_raises", pl.to_altoxml_string)
         wcs = [float(x) for x in re.findall(r'WC="([^"]+)"', xml)]
         return wcs, line.transcription_confidence, al, T
@@ -205,6 +217,10 @@ def body_alto(ctx, case):
               lambda: "stored %r: WC %r, without %r; " % (prior, wcp, wc0) + desc())
     ctx.check(confp is not None and abs(float(confp) - float(conf0)) < 1e-12, "line_confidence_after_export_depends_on_stored_value",
               lambda: "stored %r: %r, without %r; " % (prior, confp, conf0) + desc())
+    q, confq, _, _ = export(None, quality=True)
+    ctx.check(confq is not None and abs(float(confq) - float(conf0)) < 1e-9, "get_quality_line_confidence_differs_from_alto_export",
+              lambda: "get_quality stores %r, ALTO export %r; " % (confq, conf0) + desc())
+    ctx.check(0.0 <= float(q) <= 1.0 + 1e-9, "page_quality_out_of_range", lambda: "%r; " % (q,) + desc())
     rs = np.random.RandomState(case["shifts_seed"])
     shift = rs.uniform(-5, 5, size=T + 8)
     wc1, conf1, al1, _ = export(shift)
